@@ -110,9 +110,18 @@ package ethereum
 //@ pure conf(w *Watcher, safe bool, m *common.MessagePublication) = (w.waitForConfirmations && !safe ? m.ConsistencyLevel : 0)
 // a pending entry: allocated, with its message, keyed by the message's transaction; heights
 // and the abandonment window are far from the uint64 boundary (environment: block numbers)
-//@ pred wfPending(w *Watcher) = w != nil && allocated(w) && w.pending != nil && w.ethConn != nil && allocated(w.ethConn) && w.ethConn.Connector != nil && w.maxWaitConfirmations <= 4294967296
+//@ pred wfTable(w *Watcher) = w.pending != nil
 //@   | && (forall k in dom(w.pending) :: w.pending[k] != nil && allocated(w.pending[k]) && w.pending[k].message != nil && allocated(w.pending[k].message)
 //@   |      && w.pending[k].height <= 4611686018427387904 && w.pending[k].message.TxHash == k.TxHash)
+//@ pred wfPending(w *Watcher) = w != nil && allocated(w) && w.ethConn != nil && allocated(w.ethConn) && w.ethConn.Connector != nil && w.maxWaitConfirmations <= 4294967296 && wfTable(w)
+
+// pendingMu guards the table of messages waiting for confirmations: the log goroutine adds
+// to it and the head goroutine scans and prunes it. The table is read and written only under
+// the mutex, wfTable holds whenever the mutex is free, and a critical section starts from an
+// arbitrary table within wfTable when the goroutine released the mutex before.
+//@ monitor (w *Watcher) pendingMu()
+//@   modifies Watcher.pending, map[pendingKey]*pendingMessage
+//@   invariant [table] wfTable(w)
 
 // the node says the transaction is gone (as opposed to failing to answer)
 //@ pred notFound(err error) = err != nil && (err == rpc.ErrNoResult || errstr(err) == "not found")
@@ -161,7 +170,7 @@ package ethereum
 //@     at [w.ethConn.EnablePoller()]: assert [intake-faithful] indom(w.pending, key) && w.pending[key].height == ev.Raw.BlockNumber && key.BlockHash == ev.Raw.BlockHash && key.TxHash == ev.Raw.TxHash
 //@       | && w.pending[key].message.TxHash == ev.Raw.TxHash && w.pending[key].message.ConsistencyLevel == ev.ConsistencyLevel && w.pending[key].message.EmitterChain == w.chainID && w.pending[key].message.Sequence == ev.Sequence
 //@     at [w.ethConn.EnablePoller()]: assert [intake-forwards-nothing] nsent(w.msgChan) == atHead(nsent(w.msgChan))
-//@     at [w.ethConn.EnablePoller()]: assert [other-entries-kept] mapUnchangedExceptSinceHead(w.pending, key)
+//@     at [w.ethConn.EnablePoller()]: assert [other-entries-kept] mapUnchangedExceptSinceAcquire(w.pending, key)
 //@     loop [for]:
 //@       invariant [self] wfPending(w)
 //@   end-closure
